@@ -90,13 +90,18 @@ def aborted_call_case(chk, cid):
     cur.append(1)
     texts = {}
 
-    def pr(v):
+    def pr1(v, **kw):
         try:
             with warnings.catch_warnings():
                 warnings.simplefilter('ignore')
-                return C.norm(P.pformat(v, depth=2))
+                return C.norm(P.pformat(v, **kw))
         except BaseException as e:  # noqa
             return 'RAISED ' + type(e).__name__
+
+    def pr(v):
+        # with a depth limit, and - for the innermost levels, which are shallow - with exactly the configuration of
+        # the aborted call
+        return pr1(v, depth=2) + ('\n--\n' + pr1(v) if any(v is x for x in levels[-25:]) else '')
     before = [pr(v) for v in levels]
     try:
         with warnings.catch_warnings():
